@@ -174,17 +174,23 @@ def twins(chk, hscan, K):
                'rule ofat_none_c { strings: $x = "zzqqzzqq1" $y = "qqzzqqzz2" condition: %d of them at 0 }\n') % (
             rulegen.yara_escape(text), rulegen.yara_escape(text), rulegen.yara_escape(text), other,
             rulegen.yara_escape(text), off, rulegen.yara_escape(text), off, n_of, n_of, n_of, n_of)
+        # a literal must be the number it spells, whatever instruction the compiler picks to push it: literal == external holding the same value
+        bigs = [2 ** 31 - 1, 2 ** 31, 2 ** 32 - 1, 2 ** 32, 2 ** 32 + 1, 2 ** 33 + 5, 2 ** 36 - 1, 2 ** 36, 2 ** 40 + 3, 2 ** 62, 2 ** 63 - 1, 255, 256, 65535, 65536]
+        bv = r.choice(bigs) + r.choice([0, 0, 1, -1]) if r.chance(3, 4) else r.below(2 ** 40)
+        bv = max(0, min(bv, 2 ** 63 - 1))
+        src += ('rule big_eq { condition: big == %d }\nrule big_le { condition: big <= %d and %d <= big }\n'
+                'rule big_shr { condition: (%d >> 32) == (big >> 32) and (%d & 0xFFFFFFFF) == (big & 0xFFFFFFFF) }\n') % (bv, bv, bv, bv, bv)
         s = hx(src.encode())
         # A: compiled with the final values
-        cases.append(("A%d" % i, ["newcompiler", "defi ext %d" % off, "defi nof %d" % n_of, "add " + s, "getrules",
+        cases.append(("A%d" % i, ["newcompiler", "defi ext %d" % off, "defi nof %d" % n_of, "defi big %d" % bv, "add " + s, "getrules",
                                   "scanner 0", "scan " + hx(buf), "sflags %d" % K["SCAN_FLAGS_FAST_MODE"], "scan " + hx(buf)]))
         # B: compiled with other values, redefined at rules level
-        cases.append(("B%d" % i, ["newcompiler", "defi ext %d" % other, "defi nof %d" % ((n_of + 1) % 3), "add " + s, "getrules",
-                                  "rdefi ext %d" % off, "rdefi nof %d" % n_of, "scanner 0", "scan " + hx(buf)]))
+        cases.append(("B%d" % i, ["newcompiler", "defi ext %d" % other, "defi nof %d" % ((n_of + 1) % 3), "defi big 7", "add " + s, "getrules",
+                                  "rdefi ext %d" % off, "rdefi nof %d" % n_of, "rdefi big %d" % bv, "scanner 0", "scan " + hx(buf)]))
         # C: redefined at scanner level, after a save/load round trip
-        cases.append(("C%d" % i, ["newcompiler", "defi ext %d" % other, "defi nof %d" % ((n_of + 2) % 3), "add " + s, "getrules",
-                                  "reload", "use loaded", "scanner 0", "sdefi ext %d" % off, "sdefi nof %d" % n_of, "scan " + hx(buf)]))
-        meta[i] = {"text": text.hex(), "off": off, "other": other, "nof": n_of, "buf": buf.hex(), "rules": src}
+        cases.append(("C%d" % i, ["newcompiler", "defi ext %d" % other, "defi nof %d" % ((n_of + 2) % 3), "defi big 9", "add " + s, "getrules",
+                                  "reload", "use loaded", "scanner 0", "sdefi ext %d" % off, "sdefi nof %d" % n_of, "sdefi big %d" % bv, "scan " + hx(buf)]))
+        meta[i] = {"text": text.hex(), "off": off, "other": other, "nof": n_of, "buf": buf.hex(), "rules": src, "big": bv}
     out, err = vlib.run_cases(hscan, cases, timeout=1800, jobs=16)
 
     def verdicts(line):
@@ -208,6 +214,8 @@ def twins(chk, hscan, K):
             chk.violation("scanner-redefine", "external redefined at scanner level is not honoured: %s vs %s" % (va, verdicts(c[0])), rep)
         elif ("forced" in va) != ("plain" in va):
             chk.violation("forced-eval", "forcing evaluation changes the verdict: %s" % va, rep)
+        elif not all(x in va for x in ("big_eq", "big_le", "big_shr")):
+            chk.violation("literal-value", "a literal does not equal an external holding the same value %d: %s" % (meta[i]["big"], [x for x in va if x.startswith("big")]), rep)
         elif ("ofin_none" in va) != ("ofin_none_c" in va) or ("ofat_none" in va) != ("ofat_none_c" in va):
             chk.violation("required-strings", "`N of them in (..)` / `N of them at ..` with N = %d given as an external vs a literal, none of the strings in the "
                           "data: verdicts differ: %s" % (meta[i]["nof"], [x for x in va if x.startswith("of")]), rep)
